@@ -594,6 +594,23 @@ def judge_reroute(sh, rng):
         sh.hit('reroute:target-uses-write')
     if lazy:
         sh.hit('reroute:lazy-target')
+    # WSGI is positional: a target is any callable taking two arguments - other parameter names, a partial, an object
+    spelled = rng.pick(['plain', 'plain', 'other-names', 'partial', 'object', 'varargs'])
+    if spelled != 'plain':
+        import functools
+        inner_target = target
+        if spelled == 'other-names':
+            target = lambda env, sr: inner_target(env, sr)
+        elif spelled == 'partial':
+            target = functools.partial(lambda tag, env, sr: inner_target(env, sr), 'tag')
+        elif spelled == 'varargs':
+            target = lambda *a: inner_target(*a)
+        else:
+            class Target(object):
+                def __call__(self, env, sr):
+                    return inner_target(env, sr)
+            target = Target()
+        sh.hit('reroute:target-spelled-differently')
     mode = rng.pick(['redirect', 'redirect', 'rewrite', 'rewrite', 'strict'])
     # application options that have nothing to do with rerouting (the debug flag picks the error pages)
     appkw = rng.pick([{}, {}, {'debug': True}, {'debug': False}])
